@@ -50,8 +50,20 @@ func (pass *DisjunctionOfConstantsToEnum) processDisjunction(_ *Visitor, _ *ast.
 	}
 
 	var identifiedMembers []ast.EnumValue
+	// references being followed: a disjunction can refer to itself (`D: "a" | D`)
+	following := make(map[string]struct{})
+
 	var resolvesToConcreteScalarsOnly func(typeDef ast.Type) bool
 	resolvesToConcreteScalarsOnly = func(typeDef ast.Type) bool {
+		if typeDef.IsRef() {
+			if _, found := following[typeDef.Ref.String()]; found {
+				return false
+			}
+
+			following[typeDef.Ref.String()] = struct{}{}
+			defer delete(following, typeDef.Ref.String())
+		}
+
 		resolved := pass.schemas.ResolveToType(typeDef)
 
 		if resolved.IsConcreteScalar() {
